@@ -601,20 +601,78 @@ pub fn history_strategy() -> impl Strategy<Value = History> {
     prop::collection::vec(op, 1..10).prop_map(|ops| History { ops })
 }
 
+// ---- a conversion inside a sum, the converted amount possibly held in a variable ------------------------------
+
+/// `m1 +- m2 conn C3` (the conversion phrase binds to the amount next to it, then the sum is taken in m1's currency), and the
+/// same line with m2 held in a name bound on an earlier line: both give a1 +- a2·rate(c1)/rate(c2) in c1
+#[derive(Clone, Debug, Serialize, Deserialize)]
+pub struct SumConv {
+    pub a: u32,
+    pub c1: String,
+    pub plus: bool,
+    pub b: u32,
+    pub c2: String,
+    pub c3: String,
+    /// connective 1 to, 2 in, 3 into, 4 as
+    pub conn: u8,
+    pub via_var: bool,
+}
+
+pub struct SumWithConversion;
+
+impl Prop for SumWithConversion {
+    type Case = SumConv;
+    fn name(&self) -> &'static str {
+        "conversion-inside-a-sum"
+    }
+    fn check(&self, w: &mut Worker, c: &SumConv) -> Verdict {
+        let cfg = Cfg::default();
+        let rates = Rates::from_config();
+        let (a, b) = (c.a as f64 / 100.0, c.b as f64 / 100.0);
+        let m1 = plain_lit(a, &c.c1).tok().text(",", ".");
+        let m2 = plain_lit(b, &c.c2).tok().text(",", ".");
+        let conn = CONNECTIVES[1 + (c.conn as usize % 4)];
+        let head = format!("{} {}", m1, if c.plus { '+' } else { '-' });
+        let text = if c.via_var { format!("net fee = {}\n{} net fee {} {}", m2, head, conn, c.c3) } else { format!("{} {} {} {}", head, m2, conn, c.c3) };
+        let rendered = text.replace('\n', " ; ");
+        let out = match w.eval(&cfg, "en", &text) {
+            Ok(o) => o,
+            Err(p) => return Verdict::fail(format!("panic at {}: {}", p.site, p.message), rendered),
+        };
+        let r = match rates.convert(b, &c.c2, &c.c1) {
+            Some(r) => r,
+            None => return Verdict::skip("currency without a rate", rendered),
+        };
+        let exp = if c.plus { a + r } else { a - r };
+        let mut acc = Acc::new();
+        if let Err(e) = compare_scaled(out.slots.last().unwrap_or(&Slot::Nothing), &Expect::Money(exp, c.c1.to_uppercase()), a.abs().max(r.abs())) {
+            acc.fail(e);
+        }
+        acc.finish(rendered).nt(c.c1 != c.c2).class("conversion-inside-a-sum").class_if(c.via_var, "converted-amount-held-in-a-variable")
+    }
+}
+
+pub fn sumconv_strategy() -> impl Strategy<Value = SumConv> {
+    (1u32..=500_000, rated_key(), any::<bool>(), 1u32..=500_000, rated_key(), rated_key(), 0u8..4, any::<bool>()).prop_map(|(a, c1, plus, b, c2, c3, conn, via_var)| SumConv { a, c1, plus, b, c2, c3, conn, via_var })
+}
+
 pub fn run(ctx: &Ctx) {
-    ctx.rule("literals: every configured currency code (161) x spacing x case, symbol-before/after and Latin aliases where configured, k/M suffix, signs, grouping; conversion: ALL ordered pairs of the 32 rated currencies incl. identities (exhaustive table) plus generated amounts/spellings/connectives (to|in|into|as|none)/target spelled as code or alias in any case; arithmetic m1+-m2, m*n, m/n, m1/m2; histories of update_currency (code, alias, symbol, unknown names) interleaved with evaluations on a fresh calculator, a fixed panel of 8 lines re-checked after every update; metamorphic step (a quarter of the cases): the first or second amount also held in a name bound on an earlier line - the line must give the literal line's value; oracle = rate table model initialised from config.json currency_rates; non-trivial = conversion/arith between two DIFFERENT currencies, scaling, literals with suffix or fraction, histories where an updated currency is used afterwards");
+    ctx.rule("literals: every configured currency code (161) x spacing x case, symbol-before/after and Latin aliases where configured, k/M suffix, signs, grouping; conversion: ALL ordered pairs of the 32 rated currencies incl. identities (exhaustive table) plus generated amounts/spellings/connectives (to|in|into|as|none)/target spelled as code or alias in any case; arithmetic m1+-m2, m*n, m/n, m1/m2; histories of update_currency (code, alias, symbol, unknown names) interleaved with evaluations on a fresh calculator, a fixed panel of 8 lines re-checked after every update; a conversion applied to the second amount of a sum ('m1 +- m2 in C3', m2 also held in a name: expected a1 +- a2 converted into m1's currency); metamorphic step (a quarter of the cases): the first or second amount also held in a name bound on an earlier line - the line must give the literal line's value; oracle = rate table model initialised from config.json currency_rates; non-trivial = conversion/arith between two DIFFERENT currencies, scaling, literals with suffix or fraction, histories where an updated currency is used afterwards");
     ctx.assume("'code before amount' (usd 10) is not a supported spelling and is not generated; the target of a conversion is a word, not a symbol");
     ctx.assume("identity and ratios are compared with relative tolerance 1e-9 (the library divides by rate(A) and multiplies by rate(B))");
     ctx.run_table(&MoneyProp, "all-literal-spellings", literal_table(), true);
     ctx.run_table(&MoneyProp, "all-rated-pairs", pair_table(), true);
     ctx.run_generated(&MoneyProp, ctx.tier.pick(60_000, 600_000), case_strategy);
     ctx.run_generated(&RateHistory, ctx.tier.pick(1_500, 20_000), history_strategy);
+    // a conversion applied to the second amount of a sum (also held in a name): m1 +- m2 in C3
+    ctx.run_generated(&SumWithConversion, ctx.tier.pick(6_000, 60_000), sumconv_strategy);
 }
 
 pub fn replay(w: &mut Worker, sub: &str, case: &serde_json::Value) -> Option<Verdict> {
     match sub {
         "money" => crate::engine::replay_case(&MoneyProp, w, case),
         "rate-history" => crate::engine::replay_case(&RateHistory, w, case),
+        "conversion-inside-a-sum" => crate::engine::replay_case(&SumWithConversion, w, case),
         _ => None,
     }
 }
